@@ -73,7 +73,7 @@ def run(ctx):
         if f.startswith("race."):
             txt = open(os.path.join(gen, f), errors="replace").read()
             for blk in txt.split("WARNING: DATA RACE")[1:]:
-                fr = re.findall(r"^\s+(github\.com/la5nta/wl2k-go/\S+)\(", blk, re.M)
+                fr = re.findall(r"^\s+(github\.com/la5nta/wl2k-go/\S+)\(\)\s*$", blk, re.M)
                 races.append(fr[:2])
     acc2, rej2, _ = vlib.validate_traces(ctx, gen, "MCUrlTrace", "UrlTrace.cfg", t2, s2["traces"], name="tv-conc",
                                          java_opts="-Dtlc2.tool.queue.IStateQueue=StateDeque")
